@@ -58,6 +58,10 @@ func w2History(r *prng.R, matcher int, special int) []w2call {
 	case 4: // one Write: incompressible head (>= 64 KiB), then far beyond the 2 MiB chunk limit of zeros
 		h = append(h, w2call{Op: 'W', Fam: "randzeros", N: 2<<20 + 400000 + r.Intn(1000), Seed: r.U64()})
 		h = append(h, w2call{Op: 'F'})
+	case 5: // several chunks of noise in one Write (every chunk ends at the 64 KiB compressed limit with look-ahead pending)
+		wr("random", 200000+r.Intn(5000))
+		h = append(h, w2call{Op: 'F'})
+		wr("text", 500)
 	case 3: // compressible / incompressible alternation with flushes in between
 		for i := 0; i < 4; i++ {
 			wr([]string{"text", "random", "lowent", "random"}[i], r.Pick(2000, 70000, 9000))
@@ -150,7 +154,8 @@ func checkC08(c *ev.Ctx) {
 	ncarry := 32
 	c.MinEvals(int64(n / 2))
 	defaultCtors(c, "lzma2")
-	par(n+ncarry+1, func(i int) {
+	npair := 32
+	par(n+ncarry+1+npair, func(i int) {
 		id := fmt.Sprintf("h%d", i)
 		noteCase(id)
 		if !want(c, id) {
@@ -202,6 +207,16 @@ func checkC08(c *ev.Ctx) {
 		if i == nhist+ncarry {
 			special, matcher = 901, 0
 			cfg.Matcher, cfg.DictCap, cfg.BufSize = lzma.HashTable4, 64<<20, 4096
+		}
+		if pr := i - (nhist + ncarry + 1); pr >= 0 && pr < npair {
+			// a dictionary smaller than one chunk of noise together with a look-ahead buffer that
+			// makes dictionary + buffer end a little above the length of such a chunk (round 16):
+			// whether a chunk may be stored depends on what the dictionary still holds, not on
+			// what the ring could hold
+			special, matcher = 5, pr%2
+			cfg.Matcher = lzma.MatchAlgorithm(pr % 2)
+			cfg.DictCap = []int{4096, 16384, 32768, 49152}[(pr/2)%4]
+			cfg.BufSize = 64584 + []int{0, 60, 184, 700}[(pr/8)%4] - cfg.DictCap
 		}
 		if thin := i - (nhist - nedge - nthin); thin >= 0 && thin < nthin {
 			special, matcher = 1000+thin, thin%2
